@@ -444,7 +444,9 @@ From V Require Import Model.CalTrackDoc Proofs.CalTrackDocProofs.
      ct_to_doc_objects         the serialiser before 3d0f44c1: every warning / metrics object must have a .json()
      reloaded_of r s           the object from_dict builds from to_dict's document (r = true: as coded)
      ct_inputs_of s            the fields the regression prediction reads
-     unc_lookup u m            the uncertainty inputs predict applies to the rows of month m *)
+     unc_lookup u m            the uncertainty inputs predict applies to the rows of month m (typed values: int, float
+                               incl. NaN, or a null kept verbatim); arith_ok e = predict's expression evaluates on e
+     ct_to_doc_nan_as_null     a serialiser that writes non-finite statistics as null (regression witness, seeded C01-3) *)
 Print reloaded_of.
 Print unc_lookup.
 Print key_applies.
@@ -463,7 +465,7 @@ Theorem C01_caltrack_from_doc_to_doc : forall s d, wf_ct s -> ct_to_doc s = Some
 Proof. intros s d Hwf Hd. rewrite (ct_to_doc_native s Hwf) in Hd. exact (ct_from_to true s d Hwf Hd). Qed.
 Print Assumptions C01_caltrack_from_doc_to_doc.
 
-Lemma month_keys_canonical : forall u, month_keys u -> Forall (fun kv : ukey * json => canonical (fst kv)) u.
+Lemma month_keys_canonical : forall u, month_keys u -> Forall (fun kv : ukey * uentry => canonical (fst kv)) u.
 Proof.
   intros u H. unfold month_keys in H. rewrite Forall_forall in *. intros kv Hin. specialize (H kv Hin).
   destruct (fst kv); cbn in *; [exact I | exact H | contradiction].
@@ -489,6 +491,18 @@ Proof.
   exact (ct_predict_restored_l data result predict_fn true s d Hwf Hd).
 Qed.
 Print Assumptions C01_caltrack_predict_restored.
+
+(* the uncertainty entries come back value by value -- an int as that int, a float as that float, NaN (a calendar month
+   without baseline rows) as NaN, never as a null -- so predict's arithmetic evaluates on the reloaded model wherever
+   it did on the original *)
+Theorem C01_caltrack_uncertainty_values_kept : forall s d, wf_ct s -> month_keys (ct_unc s) -> ct_to_doc s = Some d ->
+  exists s', ct_from_doc d = Some s' /\ ct_unc s' = ct_unc s /\
+             forall m, option_map arith_ok (unc_lookup (ct_unc s') m) = option_map arith_ok (unc_lookup (ct_unc s) m).
+Proof.
+  intros s d Hwf Hk Hd. exists (reloaded_of true s). split; [exact (C01_caltrack_from_doc_to_doc s d Hwf Hd)|].
+  rewrite (unc_restored_repaired s Hk). split; [reflexivity | intros; reflexivity].
+Qed.
+Print Assumptions C01_caltrack_uncertainty_values_kept.
 
 (* regression witness (finding C01-K2, fixed by f37e6233): a reader that keeps the string keys loses the uncertainty
    inputs of every month of a month-keyed model (it keeps them only for the single key "all") *)
@@ -527,13 +541,34 @@ Definition ct_witness : ct_state :=
      ct_pred_type := "one_month"; ct_mapping := Some month_mapping;
      ct_processor := "caltrack_hourly_prediction_feature_processor";
      ct_occupancy := "{}"; ct_occ_bins := "{}"; ct_unocc_bins := "{}"; ct_segment_type := "three_month_weighted";
-     ct_unc := [(KMonth 1, JObj [("mean_baseline_usage", JNum 2%float); ("n", JInt 744); ("n_prime", JNum 700%float);
-                                 ("MSE", JNum 0.5%float)])];
+     ct_unc := [(KMonth 1, [("mean_baseline_usage", UFloat 2%float); ("n", UInt 744); ("n_prime", UFloat 700%float);
+                            ("MSE", UFloat 0.5%float)]);
+                (* a calendar month without baseline rows: NaN statistics *)
+                (KMonth 2, [("mean_baseline_usage", UFloat nan); ("n", UInt 0); ("n_prime", UFloat nan);
+                            ("MSE", UFloat nan)])];
      ct_warnings := WTyped []; ct_metadata := JObj []; ct_settings := JObj [];
      ct_totals := MNative [("dec-jan-feb-weighted", JObj [("rmse", JNum 0.5%float)])]; ct_avgs := MNone |}.
 
 Lemma ct_witness_wf : wf_ct ct_witness.
 Proof. unfold wf_ct, ct_witness. cbn. repeat split; repeat constructor. Qed.
+
+(* regression witness (seeded change C01-3): a serialiser that writes the non-finite statistics as null. The document
+   still reads back and re-serialises to itself, but the entry of the month without baseline rows now holds nulls:
+   the original evaluates the uncertainty expression on it (NaN), the reloaded model raises TypeError *)
+Theorem C01_regression_nan_as_null_refuted :
+  option_map arith_ok (unc_lookup (ct_unc ct_witness) 2) = Some true /\
+  exists d s', ct_to_doc_nan_as_null ct_witness = Some d /\ ct_from_doc d = Some s' /\
+               option_map arith_ok (unc_lookup (ct_unc s') 2) = Some false /\
+               ct_to_doc s' = Some d /\
+               (* as coded, the same month keeps its NaN *)
+               (exists d0 s0, ct_to_doc ct_witness = Some d0 /\ ct_from_doc d0 = Some s0 /\
+                              option_map arith_ok (unc_lookup (ct_unc s0) 2) = Some true).
+Proof.
+  split; [vm_compute; reflexivity|]. eexists. eexists. split; [vm_compute; reflexivity|].
+  split; [vm_compute; reflexivity|]. split; [vm_compute; reflexivity|]. split; [vm_compute; reflexivity|].
+  eexists. eexists. split; [vm_compute; reflexivity|]. split; vm_compute; reflexivity.
+Qed.
+Print Assumptions C01_regression_nan_as_null_refuted.
 
 Example C01_caltrack_nonvacuous :
   wf_ct ct_witness /\ month_keys (ct_unc ct_witness) /\ (exists d, ct_to_doc ct_witness = Some d) /\
